@@ -103,6 +103,7 @@ func drawOwCase(w *simrt.Tape) *owCase {
 	}
 	used := map[string]bool{}
 	relatedNames := false
+	bigGen := false
 	for i := 0; i < nModels; i++ {
 		name := pool[w.Choose(len(pool))]
 		if len(c.models) > 0 && w.Bool(25) {
@@ -137,6 +138,12 @@ func drawOwCase(w *simrt.Tape) *owCase {
 			n := w.Choose(5) // 0..4 nodes: empty batches occur
 			if w.Choose(16) == 15 {
 				n = 5 + w.Choose(8)
+			}
+			if !bigGen && name != "Storage" && name != "Sacramento" && w.Choose(120) == 119 {
+				// once in a while a generation of a few hundred nodes (where an implementation might
+				// start reading ahead, batching or pooling)
+				n = 256 + w.Choose(150)
+				bigGen = true
 			}
 			if m.maxDim > 0 && g == c.G-1 && m.total == 0 && n == 0 {
 				n = 1 // a table model needs at least one node (FindDimensions takes a maximum over its parameter matrix)
@@ -809,6 +816,13 @@ func runOwCase(rc *RunCtx, c *owCase, ext map[string]string) *Outcome {
 	}
 	if c.rolling {
 		o.probe("final_states_written_over_the_initial_states_file")
+	}
+	for _, m := range c.models {
+		for _, g := range m.gens {
+			if len(g) >= 256 {
+				o.probe("generation_with_256_or_more_nodes")
+			}
+		}
 	}
 	if c.preexisting {
 		o.probe("overwrite_existing_output")
